@@ -11,7 +11,7 @@ import gens as G
 class Prop:
     def __init__(self, pid, family_driver, model_families, generate, rule, trusted=None, assumptions=None,
                  nontrivial=None, histogram=None, translators=(), extra_vo=(), case_timeout=900,
-                 driver_env=None, driver_flags=None):
+                 driver_env=None, driver_flags=None, oracle_tokens=None):
         self.id = pid
         self.family_driver = family_driver          # family -> (driver name, flavour)
         self.model_families = set(model_families)
@@ -26,6 +26,13 @@ class Prop:
         self.case_timeout = case_timeout
         self.driver_env = driver_env or {}
         self.driver_flags = driver_flags or {}
+        # oracle verdict tokens that belong to this property (None = all); crashes and sanitizer reports always count
+        self.oracle_tokens = oracle_tokens
+
+    def relevant(self, tok):
+        if not tok.startswith("ORACLE_") or self.oracle_tokens is None:
+            return True
+        return any(tok == t or tok.startswith(t + ":") or tok.startswith(t) for t in self.oracle_tokens)
 
     def driver_spec(self, drv):
         name, flavour = drv
@@ -132,4 +139,51 @@ PROPS["C08"] = Prop(
     assumptions=["order conditions of Hairer-Wanner IV.7 for constant diagonal gamma, tolerance 2^-40 on residuals"],
     translators=(params2coq.generate,),
     extra_vo=("gen/RosParams.v",),
+)
+
+
+_int_trust = COMMON_TRUST + [
+    "scripted policies (harness/common/mocks.hpp and extract/driver3.ml implement the same pure functions); "
+    "pow / sqrt / the absorption test are oracles evaluated with binary64 on both sides",
+    "exact regime: every attempted H a power of two and every recorded value a binary64 number; cases that leave it "
+    "are reported by the model side (NOTE_OUT_OF_REGIME), counted and not compared (the implementation oracle still runs on them)"]
+_int_rule = ("rosmock: every accept/reject word up to length 4 (quick) / 6 (thorough) x separate / in-place linear solver, "
+             "plus random words up to length 8; custom dyadic coefficient tables (stages 1-6, all flag vectors), gamma, "
+             "order 1 or 2, controls (factor_min/max, safety, rejection_factor_decrease, h_min <= h_max, h_start incl. 0, "
+             "max steps 0..12, round_off), time steps 2^-60..2^3, row-major and grouped L=1..4, 1..2L+1 cells, 1-3 species; "
+             "bemock: scripted solve multipliers driving convergence / failure / reductions / doubling; "
+             "non-trivial = the run makes at least one attempt")
+
+PROPS["C05"] = Prop(
+    "C05",
+    family_driver={"rosmock": ("drv_integrators", "plain"), "bemock": ("drv_integrators", "plain")},
+    model_families={"rosmock", "bemock"},
+    generate=lambda rng, tier: G.gen_rosmock(rng, tier) + G.gen_bemock(rng, tier),
+    rule=_int_rule,
+    trusted=_int_trust,
+    oracle_tokens=["ORACLE_MATRIX_NOT_ALPHA_I_MINUS_J", "ORACLE_DIAGONAL_SHIFT_NOT_1_OVER_GAMMA_H",
+                   "ORACLE_FACTOR_BEFORE_JACOBIAN", "ORACLE_BE_MATRIX_NOT_I_OVER_H_MINUS_J"],
+)
+PROPS["C06"] = Prop(
+    "C06",
+    family_driver={"rosmock": ("drv_integrators", "plain"), "bemock": ("drv_integrators", "plain")},
+    model_families={"rosmock", "bemock"},
+    generate=lambda rng, tier: G.gen_rosmock(rng, tier) + G.gen_bemock(rng, tier),
+    rule=_int_rule,
+    trusted=_int_trust,
+    oracle_tokens=["ORACLE_COUNTERS_DO_NOT_MATCH_OPERATIONS", "ORACLE_REJECTED_EXCEEDS_UNACCEPTED_ATTEMPTS",
+                   "ORACLE_FINAL_TIME_OUT_OF_RANGE", "ORACLE_CONVERGED_WITHOUT_PROGRESS",
+                   "ORACLE_CONVERGED_BEFORE_END_OF_INTERVAL", "ORACLE_FINAL_TIME_NOT_SUM_OF_ACCEPTED_STEPS"],
+)
+PROPS["C07"] = Prop(
+    "C07",
+    family_driver={"rosmock": ("drv_integrators", "plain"), "bemock": ("drv_integrators", "plain"),
+                   "nerr": ("drv_integrators", "plain"), "isconv": ("drv_integrators", "plain")},
+    model_families={"rosmock", "bemock", "nerr", "isconv"},
+    generate=lambda rng, tier: G.gen_rosmock(rng, tier) + G.gen_bemock(rng, tier) + G.gen_nerr(rng, tier) + G.gen_isconv(rng, tier),
+    rule=_int_rule + "; nerr / isconv: the real NormalizedError and IsConverged on every shape cells 1..3L+1 x species 1..3 x "
+         "L=0..4 with per-species tolerances and garbage in the padding lanes",
+    trusted=_int_trust,
+    oracle_tokens=["ORACLE_STEP_", "ORACLE_GROWTH_", "ORACLE_REPEATED_REJECTION_CUT", "ORACLE_ACCEPT_IFF",
+                   "ORACLE_ERROR_NORM_NOT_RMS", "ORACLE_ISCONVERGED"],
 )
